@@ -539,6 +539,10 @@ class BinaryQuery(CompoundQuery):
         return self.__class__(self.a.with_boost(boost),
                               self.b.with_boost(boost))
 
+    def simplify(self, ixreader):
+        return self.__class__(self.a.simplify(ixreader),
+                              self.b.simplify(ixreader)).normalize()
+
     def normalize(self):
         a = self.a.normalize()
         b = self.b.normalize()
